@@ -333,5 +333,55 @@ theorem rot_qexp_hasDerivAt_zero (g : Quat ℝ) (f : ℕ → ℤ → ℂ) (ℓ :
   field_simp
   ring
 
+/-! ### the derivative at every t (one-parameter group ⇒ ODE) -/
+
+/-- shifting: if u ↦ F(t + u) has derivative D at 0 then F has derivative D at t -/
+theorem hasDerivAt_of_shift {F : ℝ → ℂ} {D : ℂ} {t : ℝ} (h : HasDerivAt (fun u => F (t + u)) D 0) :
+    HasDerivAt F D t := by
+  have h' : HasDerivAt (fun u => F (t + u)) D (-t + t) := by rw [neg_add_cancel]; exact h
+  have h2 := HasDerivAt.comp_const_add (-t) t h'
+  simpa using h2
+
+/-- d/dt rot(exp(t g)) f = 2i L_g (rot(exp(t g)) f), every t, |g| = 1 -/
+theorem rot_qexp_hasDerivAt (g : Quat ℝ) (hg : g.x ^ 2 + g.y ^ 2 + g.z ^ 2 = 1) (f : ℕ → ℤ → ℂ) (ℓ : ℕ) (m : ℤ)
+    (hm : m.natAbs ≤ ℓ) (t : ℝ) :
+    HasDerivAt (fun t => rot (qexp g t) f ℓ m) (2 * Complex.I * LgC g (rot (qexp g t) f) ℓ m) t := by
+  apply hasDerivAt_of_shift
+  have h := rot_qexp_hasDerivAt_zero g (rot (qexp g t) f) ℓ m hm
+  have e : (fun u => rot (qexp g u) (rot (qexp g t) f) ℓ m) = fun u => rot (qexp g (t + u)) f ℓ m := by
+    funext u
+    rw [compose_rot _ _ f ℓ m hm, qexp_add g hg]
+  rw [e] at h
+  exact h
+
+/-- d/dt rot(exp(t g)) f = rot(exp(t g)) (2i L_g f), every t, |g| = 1 (the generator commutes with its group) -/
+theorem rot_qexp_hasDerivAt' (g : Quat ℝ) (hg : g.x ^ 2 + g.y ^ 2 + g.z ^ 2 = 1) (f : ℕ → ℤ → ℂ) (ℓ : ℕ) (m : ℤ)
+    (hm : m.natAbs ≤ ℓ) (t : ℝ) :
+    HasDerivAt (fun t => rot (qexp g t) f ℓ m) (rot (qexp g t) (fun ℓ n => 2 * Complex.I * LgC g f ℓ n) ℓ m) t := by
+  apply hasDerivAt_of_shift
+  have e : (fun u => rot (qexp g (t + u)) f ℓ m)
+      = fun u => ∑ n ∈ Finset.Icc (-(ℓ : ℤ)) ℓ, rot (qexp g u) f ℓ n * docD ℓ (QA (qexp g t)) (QB (qexp g t)) n m := by
+    funext u
+    rw [add_comm t u, qexp_add g hg, ← compose_rot _ _ f ℓ m hm]
+    rfl
+  rw [e]
+  unfold rot
+  exact HasDerivAt.fun_sum (fun n hn => (rot_qexp_hasDerivAt_zero g f ℓ n (mem_blk hn)).mul_const _)
+
+/-- consequently L_g commutes with the rotations of its own one-parameter group -/
+theorem LgC_rot_comm (g : Quat ℝ) (hg : g.x ^ 2 + g.y ^ 2 + g.z ^ 2 = 1) (f : ℕ → ℤ → ℂ) (ℓ : ℕ) (m : ℤ)
+    (hm : m.natAbs ≤ ℓ) (t : ℝ) :
+    LgC g (rot (qexp g t) f) ℓ m = rot (qexp g t) (LgC g f) ℓ m := by
+  have h := (rot_qexp_hasDerivAt g hg f ℓ m hm t).unique (rot_qexp_hasDerivAt' g hg f ℓ m hm t)
+  have e : rot (qexp g t) (fun ℓ n => 2 * Complex.I * LgC g f ℓ n) ℓ m = 2 * Complex.I * rot (qexp g t) (LgC g f) ℓ m := by
+    unfold rot
+    rw [Finset.mul_sum]
+    apply Finset.sum_congr rfl
+    intro n _
+    ring
+  rw [e] at h
+  have hI : (2 : ℂ) * Complex.I ≠ 0 := mul_ne_zero two_ne_zero Complex.I_ne_zero
+  exact mul_left_cancel₀ hI h
+
 end Generators
 end
